@@ -34,6 +34,9 @@ theorem Ok.mono {env N N' ctx g p r} (h : Ok env N ctx g p r) (hN : N ≤ N') : 
 theorem No.mono {env N N' ctx g p} (h : No env N ctx g p) (hN : N ≤ N') : No env N' ctx g p :=
   fun fuel hf => h fuel (by omega)
 
+theorem NoSeq.mono {env N N' ctx gs p} (h : NoSeq env N ctx gs p) (hN : N ≤ N') : NoSeq env N' ctx gs p :=
+  fun fuel hf => h fuel (by omega)
+
 /-! ### skipping -/
 
 theorem pre_past (ctx : Ctx) (p : Pos) : (pre ctx p).past = p.past := by
@@ -124,6 +127,45 @@ theorem No_lit (env : Env) (ctx : Ctx) (s : List Char) (p : Pos)
   obtain ⟨f, rfl, _⟩ := succ_of_le hf
   simp only [run, h]
   split <;> rfl
+
+/-! `Keyword`: like `Literal`, but the character after the match (if any) must not be an identifier character -/
+
+/-- a keyword succeeds when the text starts with it and continues with the end of the text or with a character that
+    is not an identifier character (a blank, `=`, a line end, …) -/
+theorem Ok_keyword (env : Env) (ctx : Ctx) (s ident : List Char) (p : Pos) (r : List Char)
+    (h : (pre ctx p).rest = s ++ r) (hp : p.past = false) (hr : ∀ x, r.head? = some x → x ∉ ident) :
+    Ok env 1 ctx (.kw s ident) p ({ rest := r, past := false }, [.tok (String.ofList s)]) := by
+  intro fuel hf
+  obtain ⟨f, rfl, _⟩ := succ_of_le hf
+  simp only [run, pre_past, hp, h, stripPrefix_append]
+  cases r with
+  | nil => simp
+  | cons c r =>
+    have : c ∉ ident := hr c rfl
+    simp [this]
+
+theorem No_keyword_past (env : Env) (ctx : Ctx) (s ident : List Char) (p : Pos) (hp : p.past = true) :
+    No env 1 ctx (.kw s ident) p := by
+  intro fuel hf
+  obtain ⟨f, rfl, _⟩ := succ_of_le hf
+  simp only [run, pre_past, hp]
+  simp
+
+/-- a keyword fails when the text does not start with it -/
+theorem No_keyword (env : Env) (ctx : Ctx) (s ident : List Char) (p : Pos)
+    (h : stripPrefix s (pre ctx p).rest = none) : No env 1 ctx (.kw s ident) p := by
+  intro fuel hf
+  obtain ⟨f, rfl, _⟩ := succ_of_le hf
+  simp only [run, h]
+  split <;> rfl
+
+/-- a keyword fails when it is followed by an identifier character (it is a proper prefix of a longer name) -/
+theorem No_keyword_ident (env : Env) (ctx : Ctx) (s ident : List Char) (p : Pos) (c : Char) (r : List Char)
+    (h : (pre ctx p).rest = s ++ c :: r) (hc : c ∈ ident) : No env 1 ctx (.kw s ident) p := by
+  intro fuel hf
+  obtain ⟨f, rfl, _⟩ := succ_of_le hf
+  simp only [run, h, stripPrefix_append]
+  simp [hc]
 
 theorem takeWhile_body (body m r : List Char) (hm : ∀ x ∈ m, x ∈ body)
     (hr : ∀ x, r.head? = some x → x ∉ body) :
@@ -391,6 +433,7 @@ theorem No_many1 {env : Env} {N : Nat} {ctx : Ctx} {g : G} {p : Pos}
 /-- grammars without choice points (`alt`, `opt`, `many`, `many1`) and without `Combine` -/
 inductive Simple : G → Prop
   | lit (s) : Simple (.lit s)
+  | kw (s i) : Simple (.kw s i)
   | word (i b) : Simple (.word i b)
   | white : Simple .white
   | lineEnd : Simple .lineEnd
@@ -427,6 +470,7 @@ theorem run_fuel_mono_simple (env : Env) (henv : ∀ n g, env.lookup n = some g 
       rw [Nat.add_right_comm]
       cases hg with
       | lit s => simp only [run] at h ⊢; exact h
+      | kw s i => simp only [run] at h ⊢; exact h
       | word i b => simp only [run] at h ⊢; exact h
       | white => simp only [run] at h ⊢; exact h
       | lineEnd => simp only [run] at h ⊢; exact h
